@@ -1,4 +1,4 @@
-/* program h0298i mode CUDA : for (unsigned int i = (b & 15) << 1; -a <= i; i -= s; @inner) as @inner; |args|<=2^14, 1<=s<=1024, sequential trip count <= 5 */
+/* program h0298i mode HIP : for (unsigned int i = (b & 15) << 1; -a <= i; i -= s; @inner) as @inner; |args|<=2^14, 1<=s<=1024, sequential trip count <= 5 */
 
 #include "vharness.h"
 /* ---- launch-model builtins (harness globals) ---- */
@@ -56,8 +56,7 @@ static void rec(void *out, long a, long b) { rec3(out, a, b, 0); }
   }
 }
 
-/* ---- translation emitted by occa for mode CUDA (normalised lexically) ---- */
-
+/* ---- translation emitted by occa for mode HIP (normalised lexically) ---- */
 
 
   void _occa_h0298i_0(const int N, const int a, const int b, const int c, const int s, int * out) {
